@@ -16,7 +16,7 @@ def J(h, tier=Q, cost=60, **kw):
 
 def c01():
     a = (INV_ASSUME, NOOVF, ISSUED)
-    b = "capacity N as in the harness name (0..4; growth to (N+1)*2); all 2^32 generations/versions; one archetype populated"
+    b = "capacity N as in the harness name (0..5; growth to (N+1)*2); all 2^32 generations/versions; one archetype populated (two in the two_archetypes harnesses)"
     jobs = [
         J("c01_base_foo_0", Q, 20, what="with_capacity(0) establishes Inv, rejects every handle", bounds=b),
         J("c01_base_foo_3", Q, 40, what="with_capacity(3) establishes Inv, rejects every handle", bounds=b),
@@ -46,6 +46,12 @@ def c01():
         J("c01_destroy_directany_foo_3", T, 150, what="destroy(EntityDirectAny) step", bounds=b, assumes=a),
         J("c01_destroy_wdirect_foo_3", T, 200, what="World::destroy(EntityDirect) step", bounds=b, assumes=a),
         J("c01_destroy_wdirectany_foo_2", Q, 150, what="World::destroy(EntityDirectAny) step, all paths", bounds=b, assumes=a),
+        J("c01_two_archetypes_destroy_2_2", Q, 200, what="two populated archetypes: World::destroy(EntityAny) changes only the handle's own archetype (generated dispatch)", bounds=b, assumes=a),
+        J("c01_two_archetypes_lookup_2_2", T, 200, what="two populated archetypes: world-level lookups and ecs_find! over a shared component are routed by archetype id", bounds=b, assumes=a),
+        J("c01_two_archetypes_create_2_2", T, 200, what="two populated archetypes: creation in one leaves the other untouched", bounds=b, assumes=a),
+        J("c01_two_archetypes_destroy_3_2", T, 300, what="two populated archetypes, capacities 3/2", bounds=b, assumes=a),
+        J("c01_destroy_typed_foo_5", T, 900, what="destroy step N=5", bounds=b, assumes=a, timeout=3000),
+        J("c01_create_foo_5", T, 900, what="create step N=5", bounds=b, assumes=a, timeout=3000),
     ]
     return jobs
 
